@@ -163,7 +163,7 @@ void generate(uint64_t seed, const Str& profile, Desc& d, bool exceptions) {
                     if (enThrow) { kinds[nk++] = K_THROW_STD; kinds[nk++] = K_THROW_FOREIGN; }
                     if (nk == 0) continue;
                     o.kind = burst && burstKind < nk && faults.chance(3, 4) ? kinds[burstKind] : kinds[faults.below((uint64_t)nk)];
-                    if (o.kind == K_FAIL_CPP) { o.a = (int64_t)faults.below(N_FAILCPP_KINDS); if (o.a >= 24) o.b = (int64_t)faults.below(N_OPERAND_PAIRS); }
+                    if (o.kind == K_FAIL_CPP) { o.a = (int64_t)faults.below(N_FAILCPP_KINDS); if (o.a >= 24) o.b = (int64_t)faults.below(o.a == 28 ? N_BITS_CASES : N_OPERAND_PAIRS); }
                     if (o.kind == K_FAIL_C) o.a = (int64_t)faults.below(N_FAILC_KINDS);
                     if (o.kind == K_THROW_FOREIGN) o.a = (int64_t)faults.below(2);
                     o.s2 = textWithSpecials(faults, f, sfmt("tk%d_", opLine).c_str());
